@@ -78,6 +78,18 @@ InDomain(s) ==
     /\ \A k \in 1..Len(p.u) : IsRevChar(p.u[k]) \/ (p.u[k] = Hyphen /\ p.hr) \/ (p.u[k] = Colon /\ p.he)
     /\ p.hr => (p.r # <<>> /\ \A k \in 1..Len(p.r) : IsRevChar(p.r[k]))
 
+\* D2's unspecified zone (accepted today, rejected by dpkg): the text after the last hyphen is empty
+\* or contains ':', or the text before it (after a well-formed epoch) is empty
+Unspec(s) ==
+    LET j    == LastIdx(s, Hyphen)
+        i    == FirstIdx(s, Colon)
+        wfe  == i > 1 /\ i < j /\ \A k \in 1..(i - 1) : IsDigit(s[k])
+        head == SubSeq(s, IF wfe THEN i + 1 ELSE 1, j - 1)
+        tail == Drop(s, j)
+    IN  j > 0 /\ (tail = <<>> \/ (\E k \in 1..Len(tail) : tail[k] = Colon) \/ head = <<>>)
+\* a string a Version object must REFUSE (ValueError), as construction argument and as assignment
+Rejected(s) == ~InDomain(s) /\ ~Unspec(s)
+
 (***************************************************************************)
 (* 1. Reference: dpkg                                                      *)
 (***************************************************************************)
